@@ -27,7 +27,7 @@ def DS.attrsOf (d : DS) (i : Nat) : Attrs :=
 
 /-- the driver's terminal stores the raw attributes (`enc = id`): the grid comparison is only made for
     cases rendered at one colour depth whose escape codes are pairwise distinct -/
-def DS.env (d : DS) : Env := ⟨d.w, d.h, d.fs, d.attrsOf, d.depth, fun _ a => a⟩
+def DS.env (d : DS) : Env := ⟨d.w, d.h, d.fs, fun _ => d.attrsOf, 0, d.depth, fun _ a => a⟩
 def DS.cw (d : DS) (c : Char) : Nat :=
   if d.wide.contains c then 2 else if d.zero.contains c then 0 else 1
 
